@@ -1,11 +1,24 @@
 /-
-  Helper lemmas for the whole command `treetools transform` (`TT/Run.lean`): the text of a list of trees
-  (`bodyText`), its behaviour on concatenations, the frame of a TIGER-XML document, and the steps pipeline.
+  Helper lemmas for the whole command `treetools transform` (`TT/Run.lean`).
+  1. the pipeline: the text of a list of trees (`bodyText`), its behaviour on concatenations, the frame of a TIGER-XML
+     document, `distribute`, the steps.
+  2. the export writer free of paths: on a well-formed tree the number of a constituent is 500 + the number of constituents with
+     a smaller (level, leftmost token) (`numOf_eq_nu`), so that `writeExport` is a function (`assemble`) of the multiset of
+     (node, number of its parent) (`writeExport_eq_assemble`); hence invariance under maps that reorder children and change
+     fields the writer does not look at (`GoodMap`, `writeExport_goodMap`): `sortKids`, `stripW`, `carryExport`;
+     `writeExport_of_nf_eq`, `writeExport_readback` (export -> export).
+  3. brackets -> brackets: `brText`, `writeBrackets_readback`.
+  4. maps that change fields only, without any assumption on the tree (`ShapeMap`, `writeExport_shapeMap`,
+     `writeExport_carry_plain`).
 -/
 import TT.Run
 import TT.Props.C17
+import TT.Lemmas.ExportRT
+import TT.Lemmas.OwnRT
+import TT.Props.C16
 namespace TT.Lemmas.Run
-open TT TT.Tree
+open TT TT.Tree TT.Spec
+open TT.Lemmas.ExportRT TT.Lemmas.WF TT.Lemmas.Nav TT.Lemmas.OwnRT
 
 /-! ### `Except` bookkeeping -/
 
@@ -171,5 +184,1291 @@ theorem runSplitFrom_ok (steps : List Step) (fmt : DestFmt) (o : OutOpts) (enc :
     runSplitFrom steps fmt o enc spec (.ok ts) =
       (transformAll steps ts >>= fun ts' => parseSplitSpec spec ts'.length >>= fun sizes =>
         (distribute sizes ts').mapM (writeAll fmt o enc)) := rfl
+
+/-! ## the export writer, free of paths -/
+
+/-- lexicographic order on (level, leftmost token) -/
+def klt (a b : Nat × Nat) : Bool := decide (a.1 < b.1) || (a.1 == b.1 && decide (a.2 < b.2))
+def keyOf (s : Tree) : Nat × Nat := (height s, leftmost s)
+/-- a constituent: a node with at least one child -/
+def isC (s : Tree) : Bool := !s.kids.isEmpty
+def consKeys (x : Tree) : List (Nat × Nat) := ((subtrees x).filter isC).map keyOf
+def rank (K : List (Nat × Nat)) (k : Nat × Nat) : Nat := K.countP (fun a => klt a k)
+/-- the number of a node: its token number, or 500 + the number of constituents with a smaller (level, leftmost) -/
+def nu (K : List (Nat × Nat)) : Tree → Nat
+  | leaf n _ => n
+  | node f ks => 500 + rank K (keyOf (node f ks))
+
+theorem klt_irrefl (a : Nat × Nat) : klt a a = false := by simp [klt]
+theorem klt_asymm (a b : Nat × Nat) (h : klt a b = true) : klt b a = false := by
+  simp only [klt, Bool.or_eq_true, Bool.and_eq_true, decide_eq_true_eq, beq_iff_eq] at h
+  simp only [klt, Bool.or_eq_false_iff, Bool.and_eq_false_iff, decide_eq_false_iff_not, beq_eq_false_iff_ne]
+  omega
+theorem klt_total (a b : Nat × Nat) (h : a ≠ b) : klt a b = true ∨ klt b a = true := by
+  simp only [klt, Bool.or_eq_true, Bool.and_eq_true, decide_eq_true_eq, beq_iff_eq]
+  have : a.1 ≠ b.1 ∨ a.2 ≠ b.2 := by
+    by_cases h1 : a.1 = b.1
+    · right; intro h2; exact h (Prod.ext h1 h2)
+    · left; exact h1
+  omega
+
+/-! ### distinct constituents have distinct (level, leftmost) -/
+
+theorem subtrees_node' (f : Fields) (ks : List Tree) : subtrees (node f ks) = node f ks :: ks.flatMap subtrees := by
+  simp [subtrees, subtreesL_eq]
+
+theorem consKeys_node (f : Fields) (ks : List Tree) :
+    consKeys (node f ks) = (if ks.isEmpty then [] else [keyOf (node f ks)]) ++ ks.flatMap consKeys := by
+  unfold consKeys
+  rw [subtrees_node', List.filter_cons]
+  cases ks with
+  | nil => simp [isC, kids]
+  | cons k ks =>
+    simp only [isC, kids, List.isEmpty_cons, Bool.not_false, if_true, List.map_cons, List.filter_flatMap, List.map_flatMap,
+      Bool.false_eq_true, if_false, List.singleton_append]
+
+theorem consKeys_leaf (n : Nat) (f : Fields) : consKeys (leaf n f) = [] := by
+  simp [consKeys, subtrees, isC, kids]
+
+theorem height_lt_of_mem_kids (f : Fields) (ks : List Tree) (k : Tree) (hk : k ∈ ks) : height k < height (node f ks) := by
+  have := height_le_heightL ks k hk
+  simp only [height]; omega
+
+/-- every constituent key of `x` has a level at most that of `x` and a leftmost token among the tokens of `x` -/
+theorem consKeys_bound (x : Tree) (hne : x.noEmpty = true) : ∀ k ∈ consKeys x, k.1 ≤ height x ∧ k.2 ∈ x.leafNums := by
+  induction x using tree_ind with
+  | hl n f => simp [consKeys_leaf]
+  | hn f ks ih =>
+    intro k hk
+    rw [consKeys_node] at hk
+    rcases List.mem_append.1 hk with hk | hk
+    · split at hk
+      · simp at hk
+      · simp only [List.mem_singleton] at hk
+        subst hk
+        exact ⟨Nat.le_refl _, leftmost_mem _ (noEmpty_leafNums_ne_nil _ hne)⟩
+    · obtain ⟨c, hc, hkc⟩ := List.mem_flatMap.1 hk
+      obtain ⟨h1, h2⟩ := ih c hc (noEmpty_of_mem_kids f ks c hne hc) k hkc
+      have := height_lt_of_mem_kids f ks c hc
+      exact ⟨by omega, (leafNums_sublist_of_mem f ks c hc).subset h2⟩
+
+theorem consKeys_nodup (x : Tree) (hne : x.noEmpty = true) (hnd : x.leafNums.Nodup) : (consKeys x).Nodup := by
+  induction x using tree_ind with
+  | hl n f => simp [consKeys_leaf]
+  | hn f ks ih =>
+    rw [consKeys_node]
+    have hks := (noEmpty_node f ks).1 hne
+    have hflat : (ks.flatMap consKeys).Nodup := by
+      rw [leafNums_node] at hnd
+      rw [List.Nodup, List.pairwise_flatMap]
+      rw [List.Nodup, List.pairwise_flatMap] at hnd
+      refine ⟨fun c hc => ih c hc (hks.2 c hc) (hnd.1 c hc), ?_⟩
+      refine hnd.2.imp_of_mem ?_
+      intro a b ha hb hab k hk k' hk' hkk
+      have h1 := (consKeys_bound a (hks.2 a ha) k hk).2
+      have h2 := (consKeys_bound b (hks.2 b hb) k' hk').2
+      rw [hkk] at h1
+      exact hab _ h1 _ h2 rfl
+    split
+    · simpa using hflat
+    · rw [List.singleton_append, List.nodup_cons]
+      refine ⟨?_, hflat⟩
+      intro hmem
+      obtain ⟨c, hc, hkc⟩ := List.mem_flatMap.1 hmem
+      have h1 := (consKeys_bound c (hks.2 c hc) _ hkc).1
+      have := height_lt_of_mem_kids f ks c hc
+      simp only [keyOf] at h1
+      omega
+
+/-! ### the index in a strictly sorted list is the rank -/
+
+theorem countP_lt_of_pairwise {α : Type} (key : α → Nat × Nat) : ∀ (L : List α) (i : Nat) (e : α),
+    L.Pairwise (fun a b => klt (key a) (key b) = true) → L[i]? = some e →
+    (L.map key).countP (fun a => klt a (key e)) = i
+  | [], i, e, _, h => by simp at h
+  | a :: L, 0, e, hp, h => by
+    simp only [List.getElem?_cons_zero, Option.some.injEq] at h
+    subst h
+    rw [List.pairwise_cons] at hp
+    rw [List.map_cons, List.countP_cons, klt_irrefl]
+    simp only [Bool.false_eq_true, if_false, Nat.add_zero, List.countP_eq_zero, List.mem_map, Bool.not_eq_true]
+    rintro _ ⟨b, hb, rfl⟩
+    exact klt_asymm _ _ (hp.1 b hb)
+  | a :: L, i + 1, e, hp, h => by
+    simp only [List.getElem?_cons_succ] at h
+    rw [List.pairwise_cons] at hp
+    rw [List.map_cons, List.countP_cons, countP_lt_of_pairwise key L i e hp.2 h, hp.1 e (List.mem_of_getElem? h)]
+    simp
+
+/-! ### the writer's numbers are the path-free numbers -/
+
+theorem consKeys_eq_paths (x : Tree) : consKeys x = ((paths x).filter (isCons x)).map (fun p => keyOf (subAt x p)) := by
+  unfold consKeys
+  rw [← paths_map_subAt, List.filter_map, List.map_map]
+  congr 1
+  apply List.filter_congr
+  intro p hp
+  simp [isC, isCons_eq x p hp]
+
+theorem entry_key (x : Tree) (e : Path × Nat × Nat) (he : e ∈ sortedCons x) : e.2 = keyOf (subAt x e.1) := by
+  obtain ⟨s, hs, _, h1, h2⟩ := sortedCons_entry x e he
+  rw [subAt_of_get? hs]
+  exact Prod.ext h1 h2
+
+theorem sortedCons_keys_perm (x : Tree) : ((sortedCons x).map (·.2)).Perm (consKeys x) := by
+  rw [consKeys_eq_paths]
+  have h1 : (sortedCons x).map (·.2) = ((sortedCons x).map (·.1)).map (fun p => keyOf (subAt x p)) := by
+    rw [List.map_map]
+    exact List.map_congr_left (fun e he => entry_key x e he)
+  rw [h1]
+  exact (sortedCons_map_fst_perm x).map _
+
+theorem sortedCons_strict (x : Tree) (hne : x.noEmpty = true) (hnd : x.leafNums.Nodup) :
+    (sortedCons x).Pairwise (fun a b => klt a.2 b.2 = true) := by
+  have h1 := sortedCons_pairwise x
+  have h2 : ((sortedCons x).map (·.2)).Nodup := (sortedCons_keys_perm x).symm.nodup (consKeys_nodup x hne hnd)
+  rw [List.Nodup, List.pairwise_map] at h2
+  refine (h1.and h2).imp ?_
+  intro a b ⟨hle, hneq⟩
+  have : a.2.1 ≠ b.2.1 ∨ a.2.2 ≠ b.2.2 := by
+    by_cases h : a.2.1 = b.2.1
+    · right; intro h'; exact hneq (Prod.ext h h')
+    · left; exact h
+  simp only [klt, Bool.or_eq_true, Bool.and_eq_true, decide_eq_true_eq, beq_iff_eq]
+  omega
+
+theorem numOf_eq_nu (x : Tree) (hwf : WF x = true) (p : Path) (hp : p ∈ paths x) (hp0 : p ≠ []) :
+    numOf x p = nu (consKeys x) (subAt x p) := by
+  have hne := WF_noEmpty x hwf
+  cases hs : subAt x p with
+  | leaf n f => rw [numOf_leaf x p n f hp hs]; rfl
+  | node f ks =>
+    have hc : isCons x p = true := by
+      rw [isCons_eq x p hp, hs]
+      have := noEmpty_subAt x p hne hp
+      rw [hs] at this
+      have := ((noEmpty_node f ks).1 this).1
+      cases ks with
+      | nil => exact absurd rfl this
+      | cons k ks => rfl
+    obtain ⟨e, i, hi, heq⟩ := (mem_exportNumbering x _).1 (numOf_mem x p hc)
+    have he1 : e.1 = p := (congrArg Prod.fst heq).symm
+    have hnum : numOf x p = 500 + i := by
+      have := congrArg Prod.snd heq
+      simp only [he1, hp0, if_false] at this
+      exact this
+    have hcount := countP_lt_of_pairwise (fun (a : Path × Nat × Nat) => a.2) (sortedCons x) i e
+      (sortedCons_strict x hne (WF_nodup x hwf)) hi
+    have hkey := entry_key x e (List.mem_of_getElem? hi)
+    rw [he1, hs] at hkey
+    rw [hnum]
+    simp only [nu, rank]
+    rw [← (sortedCons_keys_perm x).countP_eq, ← hkey, hcount]
+
+/-! ### every written node with the number of its parent, by structural recursion -/
+
+mutual
+/-- the nodes of `s` (`s` first), each with the number of its parent; `pn` is the number of the parent of `s` -/
+def pairs (ν : Tree → Nat) (pn : Nat) : Tree → List (Tree × Nat)
+  | leaf n f => [(leaf n f, pn)]
+  | node f ks => (node f ks, pn) :: pairsL ν (ν (node f ks)) ks
+def pairsL (ν : Tree → Nat) (pn : Nat) : List Tree → List (Tree × Nat)
+  | [] => []
+  | k :: ks => pairs ν pn k ++ pairsL ν pn ks
+end
+
+theorem pairsL_eq (ν : Tree → Nat) (pn : Nat) : ∀ ks : List Tree, pairsL ν pn ks = ks.flatMap (pairs ν pn)
+  | [] => rfl
+  | k :: ks => by simp [pairsL, pairsL_eq ν pn ks]
+
+/-- the nodes that get a line (all but the root), with the numbers of their parents (the root has number 0) -/
+def rootPairs (x : Tree) : List (Tree × Nat) := pairsL (nu (consKeys x)) 0 x.kids
+
+mutual
+theorem pairs_paths (x : Tree) (hwf : WF x = true) : (s : Tree) → (p0 : Path) → p0 ∈ paths x → subAt x p0 = s → p0 ≠ [] →
+    (paths s).map (fun q => (subAt x (p0 ++ q), numOf x (p0 ++ q).dropLast)) = pairs (nu (consKeys x)) (numOf x p0.dropLast) s
+  | .leaf n f, p0, _, hs, _ => by simp [paths, pairs, hs]
+  | .node f ks, p0, hp, hs, h0 => by
+    simp only [paths, List.map_cons, pairs, List.append_nil, hs]
+    rw [pairsL_paths x hwf ks 0 p0 f ks hp hs (fun j k h => by simpa using h), numOf_eq_nu x hwf p0 hp h0, hs]
+theorem pairsL_paths (x : Tree) (hwf : WF x = true) : (ks : List Tree) → (i : Nat) → (p0 : Path) → (f0 : Fields) → (ks0 : List Tree) →
+    p0 ∈ paths x → subAt x p0 = node f0 ks0 → (∀ j k, ks[j]? = some k → ks0[i + j]? = some k) →
+    (pathsL ks i).map (fun q => (subAt x (p0 ++ q), numOf x (p0 ++ q).dropLast)) = pairsL (nu (consKeys x)) (numOf x p0) ks
+  | [], _, _, _, _, _, _, _ => rfl
+  | k :: ks, i, p0, f0, ks0, hp, hs, h => by
+    simp only [pathsL, List.map_append, List.map_map, pairsL]
+    have hk : ks0[i]? = some k := by simpa using h 0 k rfl
+    obtain ⟨hp', hs'⟩ := child_mem_paths x p0 f0 ks0 i k hp hs hk
+    have h1 := pairs_paths x hwf k (p0 ++ [i]) hp' hs' (by simp)
+    rw [List.dropLast_concat] at h1
+    have h2 := pairsL_paths x hwf ks (i + 1) p0 f0 ks0 hp hs (fun j k' hj => by
+      have := h (j + 1) k' (by simpa using hj)
+      rwa [show i + (j + 1) = i + 1 + j by omega] at this)
+    rw [← h1, ← h2]
+    congr 1
+    apply List.map_congr_left
+    intro q _
+    simp [List.append_assoc]
+end
+
+/-- the nodes the writer visits are, up to the order, those of `rootPairs` -/
+theorem nonRoot_pairs_perm (x : Tree) (hwf : WF x = true) :
+    ((nonRoot x).map (fun p => (subAt x p, numOf x p.dropLast))).Perm (rootPairs x) := by
+  refine ((nonRoot_perm x).map _).trans ?_
+  obtain ⟨hc, _⟩ := WF_root x hwf
+  cases x with
+  | leaf n f => simp [isCons, get?] at hc
+  | node f ks =>
+    have h := pairsL_paths (node f ks) hwf ks 0 [] f ks (nil_mem_paths _) (subAt_nil _) (fun j k h => by simpa using h)
+    rw [numOf_root _ hc] at h
+    simp only [List.nil_append] at h
+    have hf : (paths (node f ks)).filter (· ≠ []) = pathsL ks 0 := by
+      simp only [paths, List.filter_cons]
+      simp only [ne_eq, not_true_eq_false, decide_false, Bool.false_eq_true, if_false]
+      apply List.filter_eq_self.2
+      intro q hq
+      have : ∀ (ts : List Tree) (i : Nat), ∀ q ∈ pathsL ts i, q ≠ [] := by
+        intro ts
+        induction ts with
+        | nil => intro i q hq; simp [pathsL] at hq
+        | cons t ts ih =>
+          intro i q hq
+          simp only [pathsL, List.mem_append, List.mem_map] at hq
+          rcases hq with ⟨_, _, rfl⟩ | hq
+          · simp
+          · exact ih _ q hq
+      simpa using this ks 0 q hq
+    rw [hf, h]
+    exact List.Perm.refl _
+
+/-! ### the writer from the list of nodes -/
+
+/-- the line of a token, keyed by its number -/
+def rowT (o : OutOpts) (ν : Tree → Nat) (sp : Tree × Nat) : Except Err (Nat × Str) :=
+  exportLine o sp.1 (sp.1.fields.word.getD []) sp.2 >>= fun l => pure (ν sp.1, l)
+/-- the line of a constituent, keyed by its number -/
+def rowN (o : OutOpts) (ν : Tree → Nat) (sp : Tree × Nat) : Except Err (Nat × Str) :=
+  exportLine o sp.1 ('#' :: natToStr (ν sp.1)) sp.2 >>= fun l => pure (ν sp.1, l)
+def sortedRows {α : Type} (F : α → Except Err (Nat × Str)) (L : List α) : Except Err (List Str) :=
+  L.mapM F >>= fun r => pure ((sortBy (·.1) r).map (·.2))
+/-- the sentence from the list of (node, number of the parent) -/
+def assemble (o : OutOpts) (sid : Nat) (ν : Tree → Nat) (P : List (Tree × Nat)) : Except Err (List Str) :=
+  sortedRows (rowT o ν) (P.filter fun sp => sp.1.kids.isEmpty) >>= fun T =>
+  sortedRows (rowN o ν) (P.filter fun sp => !sp.1.kids.isEmpty) >>= fun N =>
+  pure (["#BOS ".toList ++ natToStr sid] ++ T ++ N ++ ["#EOS ".toList ++ natToStr sid])
+
+theorem mapM_congr_mem {α β : Type} (f g : α → Except Err β) : ∀ L : List α, (∀ a ∈ L, f a = g a) → L.mapM f = L.mapM g
+  | [], _ => rfl
+  | a :: L, h => by
+    rw [List.mapM_cons, List.mapM_cons, h a List.mem_cons_self,
+      mapM_congr_mem f g L (fun b hb => h b (List.mem_cons_of_mem _ hb))]
+
+theorem writeExport_eq_assemble_paths (o : OutOpts) (sid : Nat) (x : Tree) (hwf : WF x = true) :
+    writeExport o sid x = assemble o sid (nu (consKeys x)) ((nonRoot x).map fun p => (subAt x p, numOf x p.dropLast)) := by
+  rw [writeExport_unfold, nodesOf_eq]
+  unfold assemble sortedRows
+  rw [List.filter_map, List.filter_map, List.filter_map, List.filter_map, List.mapM_map, List.mapM_map, List.mapM_map, List.mapM_map]
+  simp only [Function.comp_def]
+  have hT : ((nonRoot x).filter fun p => (subAt x p).kids.isEmpty).mapM (fun p => termF o x (p, subAt x p)) =
+      ((nonRoot x).filter fun p => (subAt x p).kids.isEmpty).mapM (fun p => rowT o (nu (consKeys x)) (subAt x p, numOf x p.dropLast)) := by
+    apply mapM_congr_mem
+    intro p hp
+    obtain ⟨hp1, hp2⟩ := (mem_nonRoot x p).1 (List.mem_filter.1 hp).1
+    simp only [termF, rowT, numOf_eq_nu x hwf p hp1 hp2]
+  have hN : ((nonRoot x).filter fun p => !(subAt x p).kids.isEmpty).mapM (fun p => ntF o x (p, subAt x p)) =
+      ((nonRoot x).filter fun p => !(subAt x p).kids.isEmpty).mapM (fun p => rowN o (nu (consKeys x)) (subAt x p, numOf x p.dropLast)) := by
+    apply mapM_congr_mem
+    intro p hp
+    obtain ⟨hp1, hp2⟩ := (mem_nonRoot x p).1 (List.mem_filter.1 hp).1
+    simp only [ntF, rowN, numOf_eq_nu x hwf p hp1 hp2]
+  rw [hT, hN]
+  cases ((nonRoot x).filter fun p => (subAt x p).kids.isEmpty).mapM (fun p => rowT o (nu (consKeys x)) (subAt x p, numOf x p.dropLast)) with
+  | error e => rfl
+  | ok T =>
+    cases ((nonRoot x).filter fun p => !(subAt x p).kids.isEmpty).mapM (fun p => rowN o (nu (consKeys x)) (subAt x p, numOf x p.dropLast)) with
+    | error e => rfl
+    | ok N => rfl
+
+theorem mapM_all_ok {α β : Type} (F : α → Except Err β) : ∀ L : List α, (∀ a ∈ L, ∃ b, F a = .ok b) →
+    L.mapM F = .ok (L.filterMap fun a => (F a).toOption)
+  | [], _ => rfl
+  | a :: L, h => by
+    obtain ⟨b, hb⟩ := h a List.mem_cons_self
+    rw [List.mapM_cons, hb, mapM_all_ok F L (fun c hc => h c (List.mem_cons_of_mem _ hc)), List.filterMap_cons, hb]
+    rfl
+
+theorem mapM_some_err {α β : Type} (F : α → Except Err β) (E : Err) (herr : ∀ a e, F a = .error e → e = E) :
+    ∀ L : List α, (∃ a ∈ L, ∃ e, F a = .error e) → L.mapM F = .error E
+  | [], h => by obtain ⟨a, ha, _⟩ := h; simp at ha
+  | a :: L, h => by
+    rw [List.mapM_cons]
+    cases hF : F a with
+    | error e => rw [herr a e hF]; rfl
+    | ok b =>
+      have : ∃ c ∈ L, ∃ e, F c = .error e := by
+        obtain ⟨c, hc, e, he⟩ := h
+        rcases List.mem_cons.1 hc with rfl | hc
+        · rw [hF] at he; cases he
+        · exact ⟨c, hc, e, he⟩
+      rw [mapM_some_err F E herr L this]
+      rfl
+
+theorem filterMap_keys {α : Type} (F : α → Except Err (Nat × Str)) (key : α → Nat) (hkey : ∀ a b, F a = .ok b → b.1 = key a) :
+    ∀ L : List α, (∀ a ∈ L, ∃ b, F a = .ok b) → (L.filterMap fun a => (F a).toOption).map (·.1) = L.map key
+  | [], _ => rfl
+  | a :: L, h => by
+    obtain ⟨b, hb⟩ := h a List.mem_cons_self
+    have ih := filterMap_keys F key hkey L (fun c hc => h c (List.mem_cons_of_mem _ hc))
+    have h1 : (F a).toOption = some b := by rw [hb]; rfl
+    rw [List.filterMap_cons, h1, List.map_cons, List.map_cons, ih, hkey a b hb]
+
+/-- with distinct keys the sorted rows do not depend on the order in which the nodes are visited -/
+theorem sortedRows_perm {α : Type} (F : α → Except Err (Nat × Str)) (key : α → Nat) (hkey : ∀ a b, F a = .ok b → b.1 = key a)
+    (E : Err) (herr : ∀ a e, F a = .error e → e = E) (L L' : List α) (hp : L.Perm L') (hnd : (L.map key).Nodup) :
+    sortedRows F L = sortedRows F L' := by
+  unfold sortedRows
+  by_cases hall : ∀ a ∈ L, ∃ b, F a = .ok b
+  · have hall' : ∀ a ∈ L', ∃ b, F a = .ok b := fun a ha => hall a (hp.mem_iff.2 ha)
+    rw [mapM_all_ok F L hall, mapM_all_ok F L' hall']
+    have := sortBy_perm_eq (fun (r : Nat × Str) => r.1) _ _ (hp.filterMap fun a => (F a).toOption)
+      (by rw [filterMap_keys F key hkey L hall]; exact hnd)
+    show Except.ok _ = Except.ok _
+    rw [this]
+  · have h1 : ∃ a ∈ L, ∃ e, F a = .error e := by
+      apply Classical.byContradiction
+      intro hno
+      apply hall
+      intro a ha
+      cases hF : F a with
+      | ok b => exact ⟨b, rfl⟩
+      | error e => exact absurd ⟨a, ha, e, hF⟩ hno
+    have h2 : ∃ a ∈ L', ∃ e, F a = .error e := by
+      obtain ⟨a, ha, h⟩ := h1
+      exact ⟨a, hp.mem_iff.1 ha, h⟩
+    rw [mapM_some_err F E herr L h1, mapM_some_err F E herr L' h2]
+
+theorem getLabel_err (o : OutOpts) (t : Tree) (e : Err) (h : getLabel o t = .error e) : e = .keyError := by
+  unfold getLabel at h
+  simp only [bind, Except.bind, pure, Except.pure, throw, throwThe, MonadExceptOf.throw] at h
+  repeat' split at h
+  all_goals first | cases h | skip
+  all_goals
+    rename_i heq
+    repeat' split at heq
+    all_goals first | cases heq | skip
+    all_goals first | rfl | skip
+
+theorem exportLine_err (o : OutOpts) (s : Tree) (w : Str) (pn : Nat) (e : Err) (h : exportLine o s w pn = .error e) : e = .keyError := by
+  unfold exportLine at h
+  dsimp only at h
+  cases hg : getLabel o (s.setFields fun g => { g with edge := some (s.fields.edge.getD DEFAULT_EDGE) }) with
+  | error e' =>
+    rw [hg] at h
+    cases h
+    exact getLabel_err _ _ _ hg
+  | ok l =>
+    rw [hg] at h
+    simp only [bind, Except.bind, pure, Except.pure] at h
+    split at h <;> cases h
+
+theorem rowT_err (o : OutOpts) (ν : Tree → Nat) (sp : Tree × Nat) (e : Err) (h : rowT o ν sp = .error e) : e = .keyError := by
+  unfold rowT at h
+  cases hl : exportLine o sp.1 (sp.1.fields.word.getD []) sp.2 with
+  | error e' => rw [hl] at h; cases h; exact exportLine_err _ _ _ _ _ hl
+  | ok l => rw [hl] at h; cases h
+theorem rowN_err (o : OutOpts) (ν : Tree → Nat) (sp : Tree × Nat) (e : Err) (h : rowN o ν sp = .error e) : e = .keyError := by
+  unfold rowN at h
+  cases hl : exportLine o sp.1 ('#' :: natToStr (ν sp.1)) sp.2 with
+  | error e' => rw [hl] at h; cases h; exact exportLine_err _ _ _ _ _ hl
+  | ok l => rw [hl] at h; cases h
+theorem rowT_key (o : OutOpts) (ν : Tree → Nat) (sp : Tree × Nat) (b : Nat × Str) (h : rowT o ν sp = .ok b) : b.1 = ν sp.1 := by
+  unfold rowT at h
+  cases hl : exportLine o sp.1 (sp.1.fields.word.getD []) sp.2 with
+  | error e' => rw [hl] at h; cases h
+  | ok l => rw [hl] at h; cases h; rfl
+theorem rowN_key (o : OutOpts) (ν : Tree → Nat) (sp : Tree × Nat) (b : Nat × Str) (h : rowN o ν sp = .ok b) : b.1 = ν sp.1 := by
+  unfold rowN at h
+  cases hl : exportLine o sp.1 ('#' :: natToStr (ν sp.1)) sp.2 with
+  | error e' => rw [hl] at h; cases h
+  | ok l => rw [hl] at h; cases h; rfl
+
+/-- `assemble` does not depend on the order of the nodes when tokens and constituents have distinct numbers -/
+theorem assemble_perm (o : OutOpts) (sid : Nat) (ν : Tree → Nat) (P P' : List (Tree × Nat)) (hp : P.Perm P')
+    (hT : ((P.filter fun sp => sp.1.kids.isEmpty).map fun sp => ν sp.1).Nodup)
+    (hN : ((P.filter fun sp => !sp.1.kids.isEmpty).map fun sp => ν sp.1).Nodup) :
+    assemble o sid ν P = assemble o sid ν P' := by
+  unfold assemble
+  rw [sortedRows_perm (rowT o ν) (fun sp => ν sp.1) (rowT_key o ν) .keyError (rowT_err o ν) _ _ (hp.filter _) hT,
+    sortedRows_perm (rowN o ν) (fun sp => ν sp.1) (rowN_key o ν) .keyError (rowN_err o ν) _ _ (hp.filter _) hN]
+
+/-- the numbers of the written nodes are pairwise distinct among the tokens and among the constituents -/
+theorem rootPairs_nodup (x : Tree) (hwf : WF x = true) :
+    (((rootPairs x).filter fun sp => sp.1.kids.isEmpty).map fun sp => nu (consKeys x) sp.1).Nodup ∧
+    (((rootPairs x).filter fun sp => !sp.1.kids.isEmpty).map fun sp => nu (consKeys x) sp.1).Nodup := by
+  have hperm := nonRoot_pairs_perm x hwf
+  have key : ∀ (q : Tree → Bool) (L : List Path), L.Perm ((nonRoot x).filter fun p => q (subAt x p)) → (L.map (numOf x)).Nodup →
+      (((rootPairs x).filter fun sp => q sp.1).map fun sp => nu (consKeys x) sp.1).Nodup := by
+    intro q L hL hnd
+    refine ((hperm.filter fun sp => q sp.1).map fun sp => nu (consKeys x) sp.1).nodup_iff.1 ?_
+    rw [List.filter_map, List.map_map]
+    have : ((nonRoot x).filter ((fun sp : Tree × Nat => q sp.1) ∘ fun p => (subAt x p, numOf x p.dropLast))).map
+        ((fun sp : Tree × Nat => nu (consKeys x) sp.1) ∘ fun p => (subAt x p, numOf x p.dropLast)) =
+        ((nonRoot x).filter fun p => q (subAt x p)).map (numOf x) := by
+      apply List.map_congr_left
+      intro p hp
+      obtain ⟨hp1, hp2⟩ := (mem_nonRoot x p).1 (List.mem_filter.1 hp).1
+      exact (numOf_eq_nu x hwf p hp1 hp2).symm
+    rw [this]
+    exact (hL.map (numOf x)).nodup_iff.1 hnd
+  constructor
+  · refine key (fun s => s.kids.isEmpty) (tokPaths x) (sortBy_perm _ _) ?_
+    rw [tokPaths_nums x hwf]; exact List.nodup_range'
+  · refine key (fun s => !s.kids.isEmpty) (consPaths x) (sortBy_perm _ _) ?_
+    rw [consPaths_nums x hwf]; exact List.nodup_range'
+
+/-- MAIN LINK: on a well-formed tree the export writer is the path-free `assemble` on `rootPairs` -/
+theorem writeExport_eq_assemble (o : OutOpts) (sid : Nat) (x : Tree) (hwf : WF x = true) :
+    writeExport o sid x = assemble o sid (nu (consKeys x)) (rootPairs x) := by
+  rw [writeExport_eq_assemble_paths o sid x hwf]
+  obtain ⟨h1, h2⟩ := rootPairs_nodup x hwf
+  exact (assemble_perm o sid _ _ _ (nonRoot_pairs_perm x hwf).symm h1 h2).symm
+
+/-! ### maps that keep what the export writer looks at -/
+
+/-- a map on trees that keeps tokens tokens (same number), constituents constituents, and maps the children (in any order) -/
+structure GoodMap (g : Tree → Tree) : Prop where
+  leaf : ∀ n f, ∃ f', g (leaf n f) = leaf n f'
+  node : ∀ f ks, ∃ f' ks', g (node f ks) = node f' ks' ∧ ks'.Perm (ks.map g)
+
+theorem heightL_perm {a b : List Tree} (h : a.Perm b) : heightL a = heightL b := by
+  induction h with
+  | nil => rfl
+  | cons x _ ih => simp only [heightL, ih]
+  | swap x y l => simp only [heightL]; omega
+  | trans _ _ ih1 ih2 => rw [ih1, ih2]
+
+theorem heightL_map (g : Tree → Tree) : ∀ ks : List Tree, (∀ k ∈ ks, height (g k) = height k) → heightL (ks.map g) = heightL ks
+  | [], _ => rfl
+  | k :: ks, h => by
+    simp only [List.map_cons, heightL, h k List.mem_cons_self, heightL_map g ks (fun c hc => h c (List.mem_cons_of_mem _ hc))]
+
+theorem noEmptyL_perm {a b : List Tree} (h : a.Perm b) : noEmptyL a = noEmptyL b := by
+  induction h with
+  | nil => rfl
+  | cons x _ ih => simp only [noEmptyL, ih]
+  | swap x y l => simp only [noEmptyL]; cases x.noEmpty <;> cases y.noEmpty <;> rfl
+  | trans _ _ ih1 ih2 => rw [ih1, ih2]
+
+theorem noEmptyL_map (g : Tree → Tree) : ∀ ks : List Tree, (∀ k ∈ ks, noEmpty (g k) = noEmpty k) → noEmptyL (ks.map g) = noEmptyL ks
+  | [], _ => rfl
+  | k :: ks, h => by
+    simp only [List.map_cons, noEmptyL, h k List.mem_cons_self, noEmptyL_map g ks (fun c hc => h c (List.mem_cons_of_mem _ hc))]
+
+namespace GoodMap
+variable {g : Tree → Tree} (hg : GoodMap g)
+include hg
+
+theorem leafNums_perm (s : Tree) : (g s).leafNums.Perm s.leafNums := by
+  induction s using tree_ind with
+  | hl n f => obtain ⟨f', h⟩ := hg.leaf n f; rw [h, leafNums_leaf, leafNums_leaf]
+  | hn f ks ih =>
+    obtain ⟨f', ks', h, hp⟩ := hg.node f ks
+    rw [h, leafNums_node, leafNums_node]
+    refine (hp.flatMap_right leafNums).trans ?_
+    rw [List.flatMap_map]
+    exact perm_flatMap_of_forall _ _ ks ih
+
+theorem leftmost_eq (s : Tree) : leftmost (g s) = leftmost s := TT.Lemmas.Write.leftmost_of_perm _ _ (hg.leafNums_perm s)
+
+theorem height_eq (s : Tree) : height (g s) = height s := by
+  induction s using tree_ind with
+  | hl n f => obtain ⟨f', h⟩ := hg.leaf n f; rw [h]; rfl
+  | hn f ks ih =>
+    obtain ⟨f', ks', h, hp⟩ := hg.node f ks
+    rw [h]
+    simp only [height, heightL_perm hp, heightL_map g ks ih]
+
+theorem kidsEmpty_eq (s : Tree) : (g s).kids.isEmpty = s.kids.isEmpty := by
+  cases s with
+  | leaf n f => obtain ⟨f', h⟩ := hg.leaf n f; rw [h]; rfl
+  | node f ks =>
+    obtain ⟨f', ks', h, hp⟩ := hg.node f ks
+    rw [h]
+    have := hp.length_eq
+    simp only [kids, List.length_map] at this ⊢
+    cases ks <;> cases ks' <;> simp_all
+
+theorem isLeaf_eq (s : Tree) : (g s).isLeaf = s.isLeaf := by
+  cases s with
+  | leaf n f => obtain ⟨f', h⟩ := hg.leaf n f; rw [h]; rfl
+  | node f ks => obtain ⟨f', ks', h, _⟩ := hg.node f ks; rw [h]; rfl
+
+theorem keyOf_eq (s : Tree) : keyOf (g s) = keyOf s := by
+  simp only [keyOf, hg.height_eq, hg.leftmost_eq]
+
+theorem nu_eq (K : List (Nat × Nat)) (s : Tree) : nu K (g s) = nu K s := by
+  cases s with
+  | leaf n f => obtain ⟨f', h⟩ := hg.leaf n f; rw [h]; rfl
+  | node f ks =>
+    obtain ⟨f', ks', h, _⟩ := hg.node f ks
+    have := hg.keyOf_eq (Tree.node f ks)
+    rw [h] at this ⊢
+    simp only [nu, this]
+
+theorem noEmpty_eq (s : Tree) : noEmpty (g s) = noEmpty s := by
+  induction s using tree_ind with
+  | hl n f => obtain ⟨f', h⟩ := hg.leaf n f; rw [h]; rfl
+  | hn f ks ih =>
+    obtain ⟨f', ks', h, hp⟩ := hg.node f ks
+    have he := hg.kidsEmpty_eq (Tree.node f ks)
+    rw [h] at he ⊢
+    simp only [kids] at he
+    simp only [noEmpty, he, noEmptyL_perm hp, noEmptyL_map g ks ih]
+
+theorem consKeys_perm (s : Tree) : (consKeys (g s)).Perm (consKeys s) := by
+  induction s using tree_ind with
+  | hl n f => obtain ⟨f', h⟩ := hg.leaf n f; rw [h, consKeys_leaf, consKeys_leaf]
+  | hn f ks ih =>
+    obtain ⟨f', ks', h, hp⟩ := hg.node f ks
+    have he := hg.kidsEmpty_eq (Tree.node f ks)
+    have hk := hg.keyOf_eq (Tree.node f ks)
+    rw [h] at he hk ⊢
+    simp only [kids] at he
+    rw [consKeys_node, consKeys_node, he, hk]
+    refine List.Perm.append_left _ ?_
+    refine (hp.flatMap_right consKeys).trans ?_
+    rw [List.flatMap_map]
+    exact perm_flatMap_of_forall _ _ ks ih
+
+theorem pairs_perm (ν : Tree → Nat) (hν : ∀ s, ν (g s) = ν s) (s : Tree) : ∀ pn : Nat,
+    (pairs ν pn (g s)).Perm ((pairs ν pn s).map fun sp => (g sp.1, sp.2)) := by
+  induction s using tree_ind with
+  | hl n f =>
+    intro pn
+    obtain ⟨f', h⟩ := hg.leaf n f
+    rw [h]; simp only [pairs, List.map_cons, List.map_nil, h]
+    exact List.Perm.refl _
+  | hn f ks ih =>
+    intro pn
+    obtain ⟨f', ks', h, hp⟩ := hg.node f ks
+    have hnu := hν (Tree.node f ks)
+    rw [h] at hnu ⊢
+    simp only [pairs, List.map_cons, h, hnu]
+    refine List.Perm.cons _ ?_
+    rw [pairsL_eq, pairsL_eq, List.map_flatMap]
+    refine (hp.flatMap_right _).trans ?_
+    rw [List.flatMap_map]
+    exact perm_flatMap_of_forall _ _ ks (fun k hk => ih k hk _)
+
+end GoodMap
+
+theorem pairs_mem_subtrees (ν : Tree → Nat) (s : Tree) : ∀ (pn : Nat) (sp : Tree × Nat), sp ∈ pairs ν pn s → sp.1 ∈ subtrees s := by
+  induction s using tree_ind with
+  | hl n f => intro pn sp h; simp only [pairs, List.mem_singleton] at h; subst h; simp [subtrees]
+  | hn f ks ih =>
+    intro pn sp h
+    simp only [pairs, List.mem_cons, pairsL_eq, List.mem_flatMap] at h
+    rw [mem_subtrees_node]
+    rcases h with rfl | ⟨k, hk, h⟩
+    · exact Or.inl rfl
+    · exact Or.inr ⟨k, hk, ih k hk _ _ h⟩
+
+theorem nu_congr {K K' : List (Nat × Nat)} (h : K.Perm K') : nu K = nu K' := by
+  funext s
+  cases s with
+  | leaf n f => rfl
+  | node f ks => simp only [nu, rank, h.countP_eq]
+
+theorem assemble_map (o : OutOpts) (sid : Nat) (ν : Tree → Nat) (G : Tree × Nat → Tree × Nat) (P : List (Tree × Nat))
+    (h : ∀ sp ∈ P, (G sp).1.kids.isEmpty = sp.1.kids.isEmpty ∧ (sp.1.kids.isEmpty = true → rowT o ν (G sp) = rowT o ν sp) ∧
+      rowN o ν (G sp) = rowN o ν sp) :
+    assemble o sid ν (P.map G) = assemble o sid ν P := by
+  unfold assemble sortedRows
+  rw [List.filter_map, List.filter_map, List.mapM_map, List.mapM_map]
+  have e1 : P.filter ((fun sp : Tree × Nat => sp.1.kids.isEmpty) ∘ G) = P.filter fun sp => sp.1.kids.isEmpty :=
+    List.filter_congr (fun sp hsp => by simp only [Function.comp_apply, (h sp hsp).1])
+  have e2 : P.filter ((fun sp : Tree × Nat => !sp.1.kids.isEmpty) ∘ G) = P.filter fun sp => !sp.1.kids.isEmpty :=
+    List.filter_congr (fun sp hsp => by simp only [Function.comp_apply, (h sp hsp).1])
+  rw [e1, e2, mapM_congr_mem (rowT o ν ∘ G) (rowT o ν) _ (fun sp hsp => (h sp (List.mem_filter.1 hsp).1).2.1 (List.mem_filter.1 hsp).2),
+    mapM_congr_mem (rowN o ν ∘ G) (rowN o ν) _ (fun sp hsp => (h sp (List.mem_filter.1 hsp).1).2.2)]
+
+/-- what a map must keep of a node for its line to stay the same -/
+def LineEq (o : OutOpts) (s s' : Tree) : Prop :=
+  (∀ w pn, exportLine o s' w pn = exportLine o s w pn) ∧ (s.kids.isEmpty = true → s'.fields.word.getD [] = s.fields.word.getD [])
+
+/-- INVARIANCE: a good map applied to the children of the root of a well-formed tree (in any order, with any root fields),
+    keeping the lines, does not change what the export writer writes -/
+theorem writeExport_goodMap (o : OutOpts) (sid : Nat) (g : Tree → Tree) (hg : GoodMap g) (f f' : Fields) (ks ks' : List Tree)
+    (hp : ks'.Perm (ks.map g)) (hwf : WF (node f ks) = true)
+    (hline : ∀ k ∈ ks, ∀ s ∈ subtrees k, LineEq o s (g s)) :
+    WF (node f' ks') = true ∧ writeExport o sid (node f' ks') = writeExport o sid (node f ks) := by
+  have hleaf : (node f' ks').leafNums.Perm (node f ks).leafNums := by
+    rw [leafNums_node, leafNums_node]
+    refine (hp.flatMap_right leafNums).trans ?_
+    rw [List.flatMap_map]
+    exact perm_flatMap_of_forall _ _ ks (fun k _ => hg.leafNums_perm k)
+  have hempty : ks'.isEmpty = ks.isEmpty := by
+    have := hp.length_eq
+    simp only [List.length_map] at this
+    cases ks <;> cases ks' <;> simp_all
+  have hne : (node f' ks').noEmpty = (node f ks).noEmpty := by
+    simp only [noEmpty, hempty, noEmptyL_perm hp, noEmptyL_map g ks (fun k _ => hg.noEmpty_eq k)]
+  have hwf' : WF (node f' ks') = true :=
+    WF_of_perm _ _ hwf hleaf (by rw [hne]; exact WF_noEmpty _ hwf) rfl
+  refine ⟨hwf', ?_⟩
+  have hkey : keyOf (node f' ks') = keyOf (node f ks) := by
+    simp only [keyOf, height, heightL_perm hp, heightL_map g ks (fun k _ => hg.height_eq k),
+      TT.Lemmas.Write.leftmost_of_perm _ _ hleaf]
+  have hK : (consKeys (node f' ks')).Perm (consKeys (node f ks)) := by
+    rw [consKeys_node, consKeys_node, hempty, hkey]
+    refine List.Perm.append_left _ ?_
+    refine (hp.flatMap_right consKeys).trans ?_
+    rw [List.flatMap_map]
+    exact perm_flatMap_of_forall _ _ ks (fun k _ => hg.consKeys_perm k)
+  rw [writeExport_eq_assemble o sid _ hwf', writeExport_eq_assemble o sid _ hwf, nu_congr hK]
+  generalize hν : nu (consKeys (node f ks)) = ν
+  have hνg : ∀ s, ν (g s) = ν s := fun s => by rw [← hν]; exact hg.nu_eq _ s
+  have hP : (rootPairs (node f' ks')).Perm ((rootPairs (node f ks)).map fun sp => (g sp.1, sp.2)) := by
+    unfold rootPairs
+    rw [nu_congr hK, hν]
+    simp only [kids]
+    rw [pairsL_eq, pairsL_eq, List.map_flatMap]
+    refine (hp.flatMap_right _).trans ?_
+    rw [List.flatMap_map]
+    exact perm_flatMap_of_forall _ _ ks (fun k _ => hg.pairs_perm ν hνg k 0)
+  obtain ⟨hT, hN⟩ := rootPairs_nodup (node f ks) hwf
+  rw [hν] at hT hN
+  have hmap : assemble o sid ν ((rootPairs (node f ks)).map fun sp => (g sp.1, sp.2)) = assemble o sid ν (rootPairs (node f ks)) := by
+    apply assemble_map
+    intro sp hsp
+    have hmem : ∃ k ∈ ks, sp.1 ∈ subtrees k := by
+      unfold rootPairs at hsp
+      simp only [kids, pairsL_eq, List.mem_flatMap] at hsp
+      obtain ⟨k, hk, h⟩ := hsp
+      exact ⟨k, hk, pairs_mem_subtrees _ k _ _ h⟩
+    obtain ⟨k, hk, hs⟩ := hmem
+    obtain ⟨hl1, hl2⟩ := hline k hk sp.1 hs
+    have he := hg.kidsEmpty_eq sp.1
+    refine ⟨he, ?_, ?_⟩
+    · intro hk0
+      simp only [rowT, hνg, hl1, hl2 hk0]
+    · simp only [rowN, hνg, hl1]
+  rw [← hmap]
+  symm
+  have e1 : (fun sp : Tree × Nat => ν sp.1) ∘ (fun sp : Tree × Nat => (g sp.1, sp.2)) = fun sp => ν sp.1 := by
+    funext sp; simp only [Function.comp_apply, hνg]
+  have e2 : (fun sp : Tree × Nat => sp.1.kids.isEmpty) ∘ (fun sp : Tree × Nat => (g sp.1, sp.2)) = fun sp => sp.1.kids.isEmpty := by
+    funext sp; simp only [Function.comp_apply, hg.kidsEmpty_eq]
+  have e3 : (fun sp : Tree × Nat => !sp.1.kids.isEmpty) ∘ (fun sp : Tree × Nat => (g sp.1, sp.2)) = fun sp => !sp.1.kids.isEmpty := by
+    funext sp; simp only [Function.comp_apply, hg.kidsEmpty_eq]
+  apply assemble_perm o sid ν _ _ hP.symm
+  · rw [List.filter_map, List.map_map, e1, e2]; exact hT
+  · rw [List.filter_map, List.map_map, e1, e3]; exact hN
+
+/-! ### the three maps: `sortKids`, `stripW`, `carryExport` -/
+
+/-- `exportLine` looks at the fields other than `word` (the word column is passed separately) and at whether the node has children -/
+theorem exportLine_congr (o : OutOpts) (s s' : Tree) (w : Str) (pn : Nat)
+    (hf : { s.fields with word := none } = { s'.fields with word := none }) (hk : s.kids.isEmpty = s'.kids.isEmpty) :
+    exportLine o s w pn = exportLine o s' w pn := by
+  have h1 : s.fields.label = s'.fields.label := by have := congrArg Fields.label hf; exact this
+  have h2 : s.fields.lemma = s'.fields.lemma := by have := congrArg Fields.lemma hf; exact this
+  have h3 : s.fields.morph = s'.fields.morph := by have := congrArg Fields.morph hf; exact this
+  have h4 : s.fields.edge = s'.fields.edge := by have := congrArg Fields.edge hf; exact this
+  have h5 : s.fields.head = s'.fields.head := by have := congrArg Fields.head hf; exact this
+  have h6 : s.fields.split = s'.fields.split := by have := congrArg Fields.split hf; exact this
+  have h7 : s.fields.blockNumber = s'.fields.blockNumber := by have := congrArg Fields.blockNumber hf; exact this
+  have e1 : ∀ (t : Tree) (g : Fields → Fields), (t.setFields g).fields = g t.fields := by intro t g; cases t <;> rfl
+  have e2 : ∀ (t : Tree) (g : Fields → Fields), (t.setFields g).kids = t.kids := by intro t g; cases t <;> rfl
+  unfold exportLine getLabel
+  simp only [e1, e2, h1, h2, h3, h4, h5, h6, h7, hk]
+
+def PlainOpts (o : OutOpts) : Prop := o.gf = false ∧ o.markHeads = false ∧ o.splitMarking = false ∧ o.splitNumbering = false
+
+theorem getLabel_plainOpts (o : OutOpts) (ho : PlainOpts o) (t : Tree) : getLabel o t = .ok t.fields.label := by
+  obtain ⟨h1, h2, h3, h4⟩ := ho
+  unfold getLabel
+  simp [h1, h2, h3, h4]
+  rfl
+
+theorem goodMap_WF_inv {g : Tree → Tree} (hg : GoodMap g) (x : Tree) (h : WF (g x) = true) : WF x = true :=
+  WF_of_perm (g x) x h (hg.leafNums_perm x).symm (by rw [← hg.noEmpty_eq]; exact WF_noEmpty _ h)
+    (by rw [← hg.isLeaf_eq]; exact WF_isLeaf _ h)
+
+theorem goodMap_sortKids : GoodMap sortKids where
+  leaf n f := ⟨f, by simp [sortKids]⟩
+  node f ks := ⟨f, _, sortKids_node f ks, sortBy_perm _ _⟩
+
+theorem goodMap_stripW : GoodMap stripW where
+  leaf n f := ⟨f, stripW_leaf n f⟩
+  node f ks := ⟨_, _, stripW_node f ks, List.Perm.refl _⟩
+
+theorem goodMap_carryExport (o : OutOpts) : GoodMap (carryExport o) where
+  leaf n f := ⟨_, by rw [carryExport]⟩
+  node f ks := ⟨_, _, by rw [carryExport, carryExportL_eq], List.Perm.refl _⟩
+
+theorem lineEq_sortKids (o : OutOpts) (s : Tree) : LineEq o s (sortKids s) := by
+  have hf : (sortKids s).fields = s.fields := by cases s <;> simp [sortKids, fields]
+  refine ⟨fun w pn => exportLine_congr o _ _ w pn (by rw [hf]) (goodMap_sortKids.kidsEmpty_eq s), fun _ => by rw [hf]⟩
+
+theorem lineEq_stripW (o : OutOpts) (s : Tree) (hne : s.noEmpty = true) : LineEq o s (stripW s) := by
+  cases s with
+  | leaf n f => rw [stripW_leaf]; exact ⟨fun _ _ => rfl, fun _ => rfl⟩
+  | node f ks =>
+    rw [stripW_node]
+    refine ⟨fun w pn => exportLine_congr o _ _ w pn rfl (by cases ks <;> rfl), fun h => ?_⟩
+    have := ((noEmpty_node f ks).1 hne).1
+    cases ks with
+    | nil => exact absurd rfl this
+    | cons k ks => simp [kids] at h
+
+/-- the sorted tree is written like the tree -/
+theorem writeExport_sortKids (o : OutOpts) (sid : Nat) (x : Tree) (hwf : WF x = true) :
+    WF (sortKids x) = true ∧ writeExport o sid (sortKids x) = writeExport o sid x := by
+  cases x with
+  | leaf n f => simp [WF, isLeaf] at hwf
+  | node f ks =>
+    rw [sortKids_node]
+    exact writeExport_goodMap o sid sortKids goodMap_sortKids f f ks _ (sortBy_perm _ _) hwf
+      (fun k _ s _ => lineEq_sortKids o s)
+
+theorem noEmpty_of_mem_subtrees (x : Tree) (hne : x.noEmpty = true) : ∀ s ∈ subtrees x, s.noEmpty = true := by
+  intro s hs
+  rw [← paths_map_subAt] at hs
+  obtain ⟨p, hp, rfl⟩ := List.mem_map.1 hs
+  exact noEmpty_subAt x p hne hp
+
+/-- the word slot of a constituent is not written -/
+theorem writeExport_stripW (o : OutOpts) (sid : Nat) (x : Tree) (hwf : WF x = true) :
+    WF (stripW x) = true ∧ writeExport o sid (stripW x) = writeExport o sid x := by
+  cases x with
+  | leaf n f => simp [WF, isLeaf] at hwf
+  | node f ks =>
+    rw [stripW_node]
+    refine writeExport_goodMap o sid stripW goodMap_stripW f _ ks _ (List.Perm.refl _) hwf ?_
+    intro k hk s hs
+    exact lineEq_stripW o s (noEmpty_of_mem_subtrees k (noEmpty_of_mem_kids f ks k (WF_noEmpty _ hwf) hk) s hs)
+
+/-- two well-formed... trees with the same normal form (children sorted, constituent words erased) are written alike -/
+theorem writeExport_of_nf_eq (o : OutOpts) (sid : Nat) (x y : Tree) (hwf : WF x = true) (h : nf y = nf x) :
+    WF y = true ∧ writeExport o sid y = writeExport o sid x := by
+  obtain ⟨w1, e1⟩ := writeExport_stripW o sid x hwf
+  obtain ⟨w2, e2⟩ := writeExport_sortKids o sid (stripW x) w1
+  have w3 : WF (sortKids (stripW y)) = true := by
+    have : sortKids (stripW y) = sortKids (stripW x) := h
+    rw [this]; exact w2
+  have w4 : WF (stripW y) = true := goodMap_WF_inv goodMap_sortKids _ w3
+  have w5 : WF y = true := goodMap_WF_inv goodMap_stripW _ w4
+  refine ⟨w5, ?_⟩
+  rw [← (writeExport_stripW o sid y w5).2, ← (writeExport_sortKids o sid (stripW y) w4).2]
+  have : sortKids (stripW y) = sortKids (stripW x) := h
+  rw [this, e2, e1]
+
+/-! ### options without label decoration -/
+
+theorem fields_setFields (t : Tree) (g : Fields → Fields) : (t.setFields g).fields = g t.fields := by cases t <;> rfl
+
+/-- without decoration options `exportLine` looks at label, morphology, edge and (export 4 only) lemma -/
+theorem exportLine_congr_plain (o : OutOpts) (ho : PlainOpts o) (s s' : Tree) (w : Str) (pn : Nat)
+    (h1 : s.fields.label = s'.fields.label) (h2 : s.fields.morph.getD DEFAULT_MORPH = s'.fields.morph.getD DEFAULT_MORPH)
+    (h3 : s.fields.edge.getD DEFAULT_EDGE = s'.fields.edge.getD DEFAULT_EDGE)
+    (h4 : o.exportFour = true → s.fields.lemma.getD DEFAULT_LEMMA = s'.fields.lemma.getD DEFAULT_LEMMA) :
+    exportLine o s w pn = exportLine o s' w pn := by
+  unfold exportLine
+  dsimp only
+  rw [getLabel_plainOpts o ho, getLabel_plainOpts o ho]
+  simp only [fields_setFields, h1, h2, h3]
+  cases hx : o.exportFour with
+  | false => rfl
+  | true => simp only [h4 hx]
+
+/-- the options that matter to the export writer -/
+theorem exportLine_plain_eq (o : OutOpts) (ho : PlainOpts o) (h4 : o.exportFour = false) (s : Tree) (w : Str) (pn : Nat) :
+    exportLine o s w pn = exportLine {} s w pn := by
+  unfold exportLine
+  dsimp only
+  rw [getLabel_plainOpts o ho, getLabel_plainOpts {} ⟨rfl, rfl, rfl, rfl⟩]
+  simp only [h4]
+
+theorem writeExport_plain_eq (o : OutOpts) (ho : PlainOpts o) (h4 : o.exportFour = false) (sid : Nat) (t : Tree) :
+    writeExport o sid t = writeExport {} sid t := by
+  rw [writeExport_unfold, writeExport_unfold]
+  have e1 : termF o t = termF {} t := by funext x; simp only [termF, exportLine_plain_eq o ho h4]
+  have e2 : ntF o t = ntF {} t := by funext x; simp only [ntF, exportLine_plain_eq o ho h4]
+  rw [e1, e2]
+
+theorem printedLabel_plain (o : OutOpts) (ho : PlainOpts o) (s : Tree) : printedLabel o s = s.fields.label := by
+  unfold printedLabel
+  rw [getLabel_plainOpts o ho, fields_setFields]
+
+theorem lineEq_carryExport (o : OutOpts) (ho : PlainOpts o) (s : Tree) (hne : s.noEmpty = true) : LineEq o s (carryExport o s) := by
+  cases s with
+  | leaf n f =>
+    rw [carryExport]
+    refine ⟨fun w pn => exportLine_congr_plain o ho _ _ w pn ?_ rfl rfl ?_, fun _ => rfl⟩
+    · exact printedLabel_plain o ho _
+    · intro hx; simp only [fields, hx, if_true, Option.getD_some]
+  | node f ks =>
+    rw [carryExport]
+    refine ⟨fun w pn => exportLine_congr_plain o ho _ _ w pn ?_ rfl rfl ?_, fun h => ?_⟩
+    · exact printedLabel_plain o ho _
+    · intro hx; simp only [fields, hx, if_true, Option.getD_some]
+    · have := ((noEmpty_node f ks).1 hne).1
+      cases ks with
+      | nil => exact absurd rfl this
+      | cons k ks => simp [kids] at h
+
+/-- on well-formed trees, without decoration options: the writer looks only at what the format carries -/
+theorem writeExport_carry_WF (o : OutOpts) (ho : PlainOpts o) (sid : Nat) (t : Tree) (hwf : WF t = true) :
+    WF (carryExportRoot o t) = true ∧ writeExport o sid (carryExportRoot o t) = writeExport o sid t := by
+  cases t with
+  | leaf n f => simp [WF, isLeaf] at hwf
+  | node f ks =>
+    rw [carryExportRoot_node, carryExportL_eq]
+    refine writeExport_goodMap o sid (carryExport o) (goodMap_carryExport o) f _ ks _ (List.Perm.refl _) hwf ?_
+    intro k hk s hs
+    exact lineEq_carryExport o ho s (noEmpty_of_mem_subtrees k (noEmpty_of_mem_kids f ks k (WF_noEmpty _ hwf) hk) s hs)
+
+/-! ### export -> export -/
+
+/-- `readExport_write'` (C02Export) with the conclusion as an equation of normal forms -/
+theorem readExport_write_nf (sid : Nat) (t : Tree) (ls : List Str) (h : writeExport {} sid t = .ok ls)
+    (hwf : WF t = true) (hok : ExportOK {} t = true) (hN : t.leafNums.length < 500)
+    (hE : ∀ s ∈ t.subtrees, s.isLeaf = true → "#EOS".toList.isPrefixOf (s.fields.word.getD []) = false) :
+    ∃ r, readExport {} ((ls.map (· ++ ['\n'])).flatten) = .ok [(sid, r)] ∧ nf r = nf (carryExportRoot {} t) := by
+  have hne := WF_noEmpty t hwf
+  obtain ⟨hls, hlines⟩ := writeExport_shape {} sid t ls h
+  have hdec : ∀ p ∈ tokPaths t ++ consPaths t, decExpLine ({} : OutOpts).exportFour (lineAt {} t p) = some (entry {} t p) := by
+    intro p hp
+    obtain ⟨hp1, hp2⟩ := (mem_tok_cons t p).1 hp
+    obtain ⟨l, hl⟩ := hlines p ((mem_nonRoot t p).2 ⟨hp1, hp2⟩)
+    exact decode_lineAt {} t p l hne hok hp1 hl
+  obtain ⟨r, hr, hnf⟩ := exportSentence_write t hwf hok hN hdec
+  have hbody : ∀ l ∈ (tokPaths t ++ consPaths t).map (lineAt {} t),
+      '\n' ∉ l ∧ strip l = l ∧ "#EOS".toList.isPrefixOf l = false := by
+    intro l hl
+    obtain ⟨p, hp, rfl⟩ := List.mem_map.1 hl
+    obtain ⟨hp1, hp2⟩ := (mem_tok_cons t p).1 hp
+    obtain ⟨l', hl'⟩ := hlines p ((mem_nonRoot t p).2 ⟨hp1, hp2⟩)
+    refine lineAt_loop_ok t p l' hne hok hp1 hl' ?_
+    unfold wordOf
+    split
+    · rename_i hk
+      rw [kids_isEmpty_eq_isLeaf _ (noEmpty_subAt t p hne hp1)] at hk
+      exact hE _ (mem_subtrees_subAt t p hp1) hk
+    · exact eos_not_prefix_hash _
+  refine ⟨r, ?_, hnf⟩
+  rw [hls, List.append_assoc ["#BOS ".toList ++ natToStr sid], ← List.map_append]
+  exact readExport_frame sid _ r hbody hr
+
+/-- the tree read back from a written sentence is written as the same lines again -/
+theorem writeExport_readback (sid : Nat) (t : Tree) (ls : List Str) (h : writeExport {} sid t = .ok ls)
+    (hwf : WF t = true) (hok : ExportOK {} t = true) (hN : t.leafNums.length < 500)
+    (hE : ∀ s ∈ t.subtrees, s.isLeaf = true → "#EOS".toList.isPrefixOf (s.fields.word.getD []) = false) :
+    ∃ r, readExport {} ((ls.map (· ++ ['\n'])).flatten) = .ok [(sid, r)] ∧ writeExport {} sid r = .ok ls := by
+  obtain ⟨r, hr, hnf⟩ := readExport_write_nf sid t ls h hwf hok hN hE
+  obtain ⟨wc, ec⟩ := writeExport_carry_WF {} ⟨rfl, rfl, rfl, rfl⟩ sid t hwf
+  obtain ⟨_, er⟩ := writeExport_of_nf_eq {} sid _ r wc hnf
+  exact ⟨r, hr, by rw [er, ec, h]⟩
+
+/-! ## brackets -> brackets -/
+
+mutual
+theorem eq_of_beq : (a b : Tree) → Tree.beq a b = true → a = b
+  | .leaf n f, .leaf m g, h => by
+    simp only [Tree.beq, Bool.and_eq_true, beq_iff_eq] at h
+    rw [h.1, h.2]
+  | .node f ks, .node g ls, h => by
+    simp only [Tree.beq, Bool.and_eq_true, beq_iff_eq] at h
+    rw [h.1, eqL_of_beqL ks ls h.2]
+  | .leaf _ _, .node _ _, h => by simp [Tree.beq] at h
+  | .node _ _, .leaf _ _, h => by simp [Tree.beq] at h
+theorem eqL_of_beqL : (as bs : List Tree) → Tree.beqL as bs = true → as = bs
+  | [], [], _ => rfl
+  | a :: as, b :: bs, h => by
+    simp only [Tree.beqL, Bool.and_eq_true] at h
+    rw [eq_of_beq a b h.1, eqL_of_beqL as bs h.2]
+  | [], _ :: _, h => by simp [Tree.beqL] at h
+  | _ :: _, [], h => by simp [Tree.beqL] at h
+end
+
+theorem sortKids_eq_of_sameTree (a b : Tree) (h : sameTree a b = true) : sortKids a = sortKids b := eq_of_beq _ _ h
+
+mutual
+/-- the text the bracket writer without options prints (parentheses inside tokens replaced) -/
+def brText : Tree → Str
+  | leaf _ f => ['('] ++ replaceParens f.label ++ [' '] ++ ((f.word.map replaceParens).getD "None".toList) ++ [')']
+  | node f ks =>
+    if ks.isEmpty then ['('] ++ replaceParens f.label ++ [' '] ++ ((f.word.map replaceParens).getD "None".toList) ++ [')']
+    else ['('] ++ f.label ++ ((sortBy (·.1) (brKids ks)).map (·.2)).flatten ++ [')']
+def brKids : List Tree → List (Nat × Str)
+  | [] => []
+  | t :: ts => (leftmost t, brText t) :: brKids ts
+end
+
+theorem brKids_eq : ∀ ks : List Tree, brKids ks = ks.map fun k => (leftmost k, brText k)
+  | [] => rfl
+  | k :: ks => by simp [brKids, brKids_eq ks]
+
+theorem brText_node (f : Fields) (ks : List Tree) (h : ks ≠ []) :
+    brText (node f ks) = ['('] ++ f.label ++ ((sortBy leftmost ks).map brText).flatten ++ [')'] := by
+  have : ks.isEmpty = false := by cases ks <;> simp_all
+  rw [brText, this, brKids_eq, sortBy_map_keyed]
+  rfl
+
+/-- the bracket writer without options is total and prints `brText` -/
+theorem bracketsSub_eq_brText (t : Tree) : bracketsSub {} false t = .ok (brText t) := by
+  induction t using tree_ind with
+  | hl n f =>
+    rw [bracketsSub_leaf_plain, brText]
+    simp [TT.Lemmas.Write.none_eq]
+  | hn f ks ih =>
+    have hk : ∀ L : List Tree, (∀ k ∈ L, k ∈ ks) → bracketsKids {} L = .ok (brKids L) := by
+      intro L
+      induction L with
+      | nil => intro _; rw [bracketsKids, brKids]
+      | cons k L ihL =>
+        intro hL
+        rw [bracketsKids, ih k (hL k (by simp)), ihL (fun k' hk' => hL k' (by simp [hk'])), brKids]
+    rw [bracketsSub, brText]
+    by_cases he : ks.isEmpty = true
+    · simp only [he, if_true, TT.Props.C20.getLabel_plain, Tree.fields, replaceParensFields]
+    · simp only [he, Bool.false_eq_true, if_false, TT.Props.C20.getLabel_plain, hk ks (fun _ h => h), Tree.fields]
+
+theorem brText_sortKids (x : Tree) : brText (sortKids x) = brText x := by
+  induction x using tree_ind with
+  | hl n f => simp [sortKids]
+  | hn f ks ih =>
+    rw [sortKids_node]
+    cases hks : ks with
+    | nil => simp [sortBy, brText]
+    | cons k0 ks0 =>
+      rw [← hks]
+      have hne : ks ≠ [] := by rw [hks]; simp
+      have hne' : sortBy leftmost (ks.map sortKids) ≠ [] := by
+        intro h
+        have := congrArg List.length h
+        rw [sortBy_length, List.length_map] at this
+        exact hne (List.eq_nil_of_length_eq_zero this)
+      rw [brText_node f _ hne', brText_node f ks hne, sortBy_of_sorted leftmost _ (sortBy_sorted leftmost _),
+        sortBy_map leftmost leftmost sortKids (fun a => TT.Lemmas.ExportRT.leftmost_sortKids a), List.map_map]
+      congr 3
+      apply List.map_congr_left
+      intro k hk
+      exact ih k ((mem_sortBy _ _ _).1 hk)
+
+theorem brText_asRead (x : Tree) (hne : x.noEmpty = true) : brText (asReadBrackets x) = brText x := by
+  induction x using tree_ind with
+  | hl n f => rw [asRead_leaf, brText, brText]
+  | hn f ks ih =>
+    rw [asRead_node]
+    obtain ⟨hks, hk⟩ := (noEmpty_node f ks).1 hne
+    have hks' : ks.map asReadBrackets ≠ [] := by
+      intro h; exact hks (List.map_eq_nil_iff.1 h)
+    have hl : ∀ a, leftmost (asReadBrackets a) = leftmost a := fun a =>
+      TT.Lemmas.Write.leftmost_of_perm _ _ (by rw [leafNums_asRead])
+    rw [brText_node _ _ hks', brText_node f ks hks, sortBy_map leftmost leftmost asReadBrackets hl, List.map_map]
+    congr 3
+    apply List.map_congr_left
+    intro k hk'
+    have hkm := (mem_sortBy _ _ _).1 hk'
+    exact ih k hkm (hk k hkm)
+
+theorem goodMap_asRead : GoodMap asReadBrackets where
+  leaf n f := ⟨_, asRead_leaf n f⟩
+  node f ks := ⟨_, _, asRead_node f ks, List.Perm.refl _⟩
+
+theorem GoodMap.subtrees_perm {g : Tree → Tree} (hg : GoodMap g) (x : Tree) : (subtrees (g x)).Perm ((subtrees x).map g) := by
+  induction x using tree_ind with
+  | hl n f =>
+    obtain ⟨f', h⟩ := hg.leaf n f
+    rw [h]; simp only [subtrees, List.map_cons, List.map_nil, h]; exact List.Perm.refl _
+  | hn f ks ih =>
+    obtain ⟨f', ks', h, hp⟩ := hg.node f ks
+    rw [h, subtrees_node', subtrees_node', List.map_cons, h, List.map_flatMap]
+    refine List.Perm.cons _ ?_
+    refine (hp.flatMap_right _).trans ?_
+    rw [List.flatMap_map]
+    exact perm_flatMap_of_forall _ _ ks ih
+
+theorem GoodMap.gapDegreeNode_eq {g : Tree → Tree} (hg : GoodMap g) (s : Tree) : gapDegreeNode (g s) = gapDegreeNode s := by
+  have hy : yield (g s) = yield s := by
+    rw [yield_eq, yield_eq]; exact TT.Lemmas.Write.sortBy_id_perm _ _ (hg.leafNums_perm s)
+  cases s with
+  | leaf n f => obtain ⟨f', h⟩ := hg.leaf n f; rw [h]; rfl
+  | node f ks =>
+    obtain ⟨f', ks', h, _⟩ := hg.node f ks
+    rw [h] at hy ⊢
+    simp only [gapDegreeNode, hy]
+
+theorem gapDegree_zero_iff_subtrees' (t : Tree) : gapDegree t = 0 ↔ ∀ s ∈ t.subtrees, gapDegreeNode s = 0 := by
+  constructor
+  · intro h s hs
+    have := TT.Props.C16.gapDegree_ge t s ((preorder_perm_subtrees t).mem_iff.2 hs)
+    omega
+  · intro h
+    obtain ⟨s, hs, he⟩ := TT.Props.C16.gapDegree_attained t
+    rw [← he]
+    exact h s ((preorder_perm_subtrees t).mem_iff.1 hs)
+
+theorem GoodMap.gapDegree_zero {g : Tree → Tree} (hg : GoodMap g) (x : Tree) : gapDegree (g x) = 0 ↔ gapDegree x = 0 := by
+  rw [gapDegree_zero_iff_subtrees', gapDegree_zero_iff_subtrees']
+  constructor
+  · intro h s hs
+    rw [← hg.gapDegreeNode_eq s]
+    exact h _ ((hg.subtrees_perm x).mem_iff.2 (List.mem_map_of_mem hs))
+  · intro h s' hs'
+    obtain ⟨s, hs, rfl⟩ := List.mem_map.1 ((hg.subtrees_perm x).mem_iff.1 hs')
+    rw [hg.gapDegreeNode_eq s]
+    exact h s hs
+
+/-- the tree read back from a written bracket line is written as the same line again -/
+theorem writeBrackets_readback (t r : Tree) (s : Str) (hne : t.noEmpty = true) (hc : gapDegree t = 0)
+    (h : bracketsSub {} false t = .ok s) (hsame : sameTree r (asReadBrackets t) = true) :
+    writeBrackets {} r = .ok (some s) := by
+  have hs := sortKids_eq_of_sameTree _ _ hsame
+  have hgap : gapDegree r = 0 := by
+    rw [← goodMap_sortKids.gapDegree_zero, hs, goodMap_sortKids.gapDegree_zero, goodMap_asRead.gapDegree_zero]
+    exact hc
+  have htext : brText r = s := by
+    rw [← brText_sortKids, hs, brText_sortKids, brText_asRead t hne]
+    have := bracketsSub_eq_brText t
+    rw [h] at this
+    cases this; rfl
+  unfold writeBrackets
+  simp only [hgap, Nat.lt_irrefl, if_false]
+  show (bracketsSub {} false r).map some = _
+  rw [bracketsSub_eq_brText, htext]
+  rfl
+
+/-! ## maps that change fields only: the export writer without any well-formedness assumption -/
+
+theorem filterMap_congr_mem {α β : Type} (f g : α → Option β) : ∀ l : List α, (∀ a ∈ l, f a = g a) → l.filterMap f = l.filterMap g
+  | [], _ => rfl
+  | a :: l, h => by
+    rw [List.filterMap_cons, List.filterMap_cons, h a List.mem_cons_self,
+      filterMap_congr_mem f g l (fun b hb => h b (List.mem_cons_of_mem _ hb))]
+
+/-- a map that keeps the shape (children in place) and the token numbers -/
+structure ShapeMap (g : Tree → Tree) : Prop where
+  leaf : ∀ n f, ∃ f', g (leaf n f) = leaf n f'
+  node : ∀ f ks, ∃ f', g (node f ks) = node f' (ks.map g)
+
+theorem ShapeMap.good {g : Tree → Tree} (hg : ShapeMap g) : GoodMap g where
+  leaf := hg.leaf
+  node f ks := by obtain ⟨f', h⟩ := hg.node f ks; exact ⟨f', _, h, List.Perm.refl _⟩
+
+theorem ShapeMap.get? {g : Tree → Tree} (hg : ShapeMap g) : ∀ (q : Path) (k : Tree), Tree.get? (g k) q = (Tree.get? k q).map g
+  | [], k => by simp [Tree.get?]
+  | i :: q, .leaf n f => by obtain ⟨f', h⟩ := hg.leaf n f; rw [h]; simp [Tree.get?]
+  | i :: q, .node f ks => by
+    obtain ⟨f', h⟩ := hg.node f ks
+    rw [h]
+    simp only [Tree.get?, List.getElem?_map]
+    cases ks[i]? with
+    | none => rfl
+    | some k => simpa using ShapeMap.get? hg q k
+
+theorem preorderPK_map (g : Tree → Tree) (hl : ∀ k, leftmost (g k) = leftmost k) : ∀ (ks : List Tree) (i : Nat),
+    (∀ k ∈ ks, preorderP (g k) = preorderP k) → preorderPK (ks.map g) i = preorderPK ks i
+  | [], _, _ => rfl
+  | k :: ks, i, h => by
+    simp only [List.map_cons, preorderPK, hl, h k List.mem_cons_self,
+      preorderPK_map g hl ks (i + 1) (fun c hc => h c (List.mem_cons_of_mem _ hc))]
+
+theorem ShapeMap.preorderP {g : Tree → Tree} (hg : ShapeMap g) (k : Tree) : Tree.preorderP (g k) = Tree.preorderP k := by
+  induction k using tree_ind with
+  | hl n f => obtain ⟨f', h⟩ := hg.leaf n f; rw [h]; rfl
+  | hn f ks ih =>
+    obtain ⟨f', h⟩ := hg.node f ks
+    rw [h]
+    simp only [Tree.preorderP, preorderPK_map g hg.good.leftmost_eq ks 0 ih]
+
+section root
+variable {g : Tree → Tree} (hg : ShapeMap g) (f f' : Fields) (ks : List Tree)
+include hg
+
+theorem shape_preorderP : Tree.preorderP (node f' (ks.map g)) = Tree.preorderP (node f ks) := by
+  simp only [Tree.preorderP, preorderPK_map g hg.good.leftmost_eq ks 0 (fun k _ => hg.preorderP k)]
+
+theorem shape_get? (i : Nat) (q : Path) : Tree.get? (node f' (ks.map g)) (i :: q) = (Tree.get? (node f ks) (i :: q)).map g := by
+  simp only [Tree.get?, List.getElem?_map]
+  cases ks[i]? with
+  | none => rfl
+  | some k => simpa using hg.get? q k
+
+theorem shape_key : height (node f' (ks.map g)) = height (node f ks) ∧ leftmost (node f' (ks.map g)) = leftmost (node f ks) := by
+  constructor
+  · simp only [height, heightL_map g ks (fun k _ => hg.good.height_eq k)]
+  · apply TT.Lemmas.Write.leftmost_of_perm
+    rw [leafNums_node, leafNums_node, List.flatMap_map]
+    exact perm_flatMap_of_forall _ _ ks (fun k _ => hg.good.leafNums_perm k)
+
+theorem shape_constituentsPre : constituentsPre (node f' (ks.map g)) = constituentsPre (node f ks) := by
+  unfold constituentsPre
+  rw [shape_preorderP hg f f' ks]
+  apply filterMap_congr_mem
+  intro p _
+  cases p with
+  | nil =>
+    simp only [Tree.get?]
+    cases ks with
+    | nil => rfl
+    | cons k ks' =>
+      have := shape_key hg f f' (k :: ks')
+      simp only [List.map_cons] at this ⊢
+      rw [this.1, this.2]
+  | cons i q =>
+    rw [shape_get? hg f f' ks i q]
+    cases Tree.get? (node f ks) (i :: q) with
+    | none => rfl
+    | some s =>
+      cases s with
+      | leaf n f0 => obtain ⟨f0', h⟩ := hg.leaf n f0; simp only [Option.map_some, h]
+      | node f0 ks0 =>
+        obtain ⟨f0', h⟩ := hg.node f0 ks0
+        have hh := hg.good.height_eq (node f0 ks0)
+        have hl := hg.good.leftmost_eq (node f0 ks0)
+        rw [h] at hh hl
+        simp only [Option.map_some, h]
+        cases ks0 with
+        | nil => rfl
+        | cons k0 ks0' =>
+          simp only [List.map_cons] at hh hl ⊢
+          rw [hh, hl]
+
+theorem shape_exportNum (p : Path) : exportNum (node f' (ks.map g)) p = exportNum (node f ks) p := by
+  have hnum : exportNumbering (node f' (ks.map g)) = exportNumbering (node f ks) := by
+    unfold exportNumbering
+    rw [shape_constituentsPre hg f f' ks]
+  unfold exportNum
+  rw [hnum]
+  cases p with
+  | nil => simp only [Tree.get?]
+  | cons i q =>
+    rw [shape_get? hg f f' ks i q]
+    cases Tree.get? (node f ks) (i :: q) with
+    | none => rfl
+    | some s =>
+      cases s with
+      | leaf n f0 => obtain ⟨f0', h⟩ := hg.leaf n f0; simp only [Option.map_some, h]
+      | node f0 ks0 => obtain ⟨f0', h⟩ := hg.node f0 ks0; simp only [Option.map_some, h]
+
+theorem shape_numOf : numOf (node f' (ks.map g)) = numOf (node f ks) := by
+  funext p; simp only [numOf, shape_exportNum hg f f' ks p]
+
+theorem shape_nodesOf : nodesOf (node f' (ks.map g)) = (nodesOf (node f ks)).map fun ps => (ps.1, g ps.2) := by
+  unfold nodesOf nonRoot
+  rw [shape_preorderP hg f f' ks, List.map_filterMap]
+  apply filterMap_congr_mem
+  intro p hp
+  have hp0 : p ≠ [] := by simpa using (List.mem_filter.1 hp).2
+  cases p with
+  | nil => exact absurd rfl hp0
+  | cons i q =>
+    rw [shape_get? hg f f' ks i q]
+    cases Tree.get? (node f ks) (i :: q) <;> rfl
+
+/-- a shape-keeping map applied to the children of the root that keeps the lines does not change what the export writer writes
+    (no assumption on the tree) -/
+theorem writeExport_shapeMap (o : OutOpts) (sid : Nat)
+    (hline : ∀ k ∈ ks, ∀ s ∈ subtrees k, LineEq o s (g s)) :
+    writeExport o sid (node f' (ks.map g)) = writeExport o sid (node f ks) := by
+  rw [writeExport_unfold, writeExport_unfold, shape_nodesOf hg f f' ks]
+  have hmem : ∀ ps ∈ nodesOf (node f ks), ∃ k ∈ ks, ps.2 ∈ subtrees k := by
+    intro ps hps
+    rw [nodesOf_eq] at hps
+    obtain ⟨p, hp, rfl⟩ := List.mem_map.1 hps
+    obtain ⟨hp1, hp0⟩ := (mem_nonRoot _ p).1 hp
+    cases p with
+    | nil => exact absurd rfl hp0
+    | cons i q =>
+      have hg' := get?_of_mem_paths _ _ hp1
+      simp only [Tree.get?] at hg'
+      cases hk : ks[i]? with
+      | none => simp [hk] at hg'
+      | some k =>
+        simp only [hk] at hg'
+        refine ⟨k, List.mem_of_getElem? hk, ?_⟩
+        have hq : q ∈ paths k := (mem_paths_iff k q).2 (by simp [hg'])
+        have := mem_subtrees_subAt k q hq
+        rwa [subAt_of_get? hg'] at this
+  have e1 : ((nodesOf (node f ks)).map fun ps => (ps.1, g ps.2)).filter (fun x => x.2.kids.isEmpty) =
+      ((nodesOf (node f ks)).filter fun x => x.2.kids.isEmpty).map fun ps => (ps.1, g ps.2) := by
+    rw [List.filter_map]
+    congr 1
+    apply List.filter_congr
+    intro ps _
+    simp only [Function.comp_apply, hg.good.kidsEmpty_eq]
+  have e2 : ((nodesOf (node f ks)).map fun ps => (ps.1, g ps.2)).filter (fun x => !x.2.kids.isEmpty) =
+      ((nodesOf (node f ks)).filter fun x => !x.2.kids.isEmpty).map fun ps => (ps.1, g ps.2) := by
+    rw [List.filter_map]
+    congr 1
+    apply List.filter_congr
+    intro ps _
+    simp only [Function.comp_apply, hg.good.kidsEmpty_eq]
+  rw [e1, e2, List.mapM_map, List.mapM_map]
+  have hT : ((nodesOf (node f ks)).filter fun x => x.2.kids.isEmpty).mapM (termF o (node f' (ks.map g)) ∘ fun ps => (ps.1, g ps.2)) =
+      ((nodesOf (node f ks)).filter fun x => x.2.kids.isEmpty).mapM (termF o (node f ks)) := by
+    apply mapM_congr_mem
+    intro ps hps
+    obtain ⟨hps1, hps2⟩ := List.mem_filter.1 hps
+    obtain ⟨k, hk, hs⟩ := hmem ps hps1
+    obtain ⟨hl1, hl2⟩ := hline k hk ps.2 hs
+    simp only [Function.comp_apply, termF, shape_numOf hg f f' ks, hl1, hl2 hps2]
+  have hN : ((nodesOf (node f ks)).filter fun x => !x.2.kids.isEmpty).mapM (ntF o (node f' (ks.map g)) ∘ fun ps => (ps.1, g ps.2)) =
+      ((nodesOf (node f ks)).filter fun x => !x.2.kids.isEmpty).mapM (ntF o (node f ks)) := by
+    apply mapM_congr_mem
+    intro ps hps
+    obtain ⟨hps1, _⟩ := List.mem_filter.1 hps
+    obtain ⟨k, hk, hs⟩ := hmem ps hps1
+    obtain ⟨hl1, _⟩ := hline k hk ps.2 hs
+    simp only [Function.comp_apply, ntF, shape_numOf hg f f' ks, hl1]
+  rw [hT, hN]
+
+end root
+
+theorem writeExport_leaf (o : OutOpts) (sid : Nat) (n : Nat) (f : Fields) :
+    writeExport o sid (leaf n f) = .ok ["#BOS ".toList ++ natToStr sid, "#EOS ".toList ++ natToStr sid] := by
+  have h : nodesOf (leaf n f) = [] := by simp [nodesOf, nonRoot, Tree.preorderP]
+  rw [writeExport_unfold, h]
+  rfl
+
+theorem shapeMap_carryExport (o : OutOpts) : ShapeMap (carryExport o) where
+  leaf n f := ⟨_, by rw [carryExport]⟩
+  node f ks := ⟨_, by rw [carryExport, carryExportL_eq]⟩
+
+/-- without decoration options the carried node is written like the node, unless it is a childless constituent with a word -/
+theorem lineEq_carryExport' (o : OutOpts) (ho : PlainOpts o) (s : Tree) (hw : ∀ f, s = node f [] → f.word.getD [] = []) :
+    LineEq o s (carryExport o s) := by
+  cases s with
+  | leaf n f =>
+    rw [carryExport]
+    refine ⟨fun w pn => exportLine_congr_plain o ho _ _ w pn ?_ rfl rfl ?_, fun _ => rfl⟩
+    · exact printedLabel_plain o ho _
+    · intro hx; simp only [fields, hx, if_true, Option.getD_some]
+  | node f ks =>
+    rw [carryExport]
+    refine ⟨fun w pn => exportLine_congr_plain o ho _ _ w pn ?_ rfl rfl ?_, fun h => ?_⟩
+    · exact printedLabel_plain o ho _
+    · intro hx; simp only [fields, hx, if_true, Option.getD_some]
+    · cases ks with
+      | nil => simp only [fields, Option.getD_none]; exact (hw f rfl).symm
+      | cons k ks => simp [kids] at h
+
+/-- CORRECTED `writeExport_carry`: without label decoration, and when no childless constituent below the root carries a word,
+    the export writer looks only at what the format carries (no other assumption on the tree) -/
+theorem writeExport_carry_plain (o : OutOpts) (ho : PlainOpts o) (sid : Nat) (t : Tree)
+    (hw : ∀ k ∈ t.kids, ∀ f, node f [] ∈ subtrees k → f.word.getD [] = []) :
+    writeExport o sid (carryExportRoot o t) = writeExport o sid t := by
+  cases t with
+  | leaf n f =>
+    have : carryExportRoot o (leaf n f) = carryExport o (leaf n f) := by simp [carryExportRoot, carryExport]
+    rw [this, carryExport, writeExport_leaf, writeExport_leaf]
+  | node f ks =>
+    rw [carryExportRoot_node, carryExportL_eq]
+    apply writeExport_shapeMap (shapeMap_carryExport o)
+    intro k hk s hs
+    exact lineEq_carryExport' o ho s (fun f0 h0 => hw k hk f0 (h0 ▸ hs))
 
 end TT.Lemmas.Run
